@@ -291,6 +291,7 @@ def run(ctx):
             s5.nontrivial.add((kind, feats, rb[:3]))
             s5.count(("line", "block", "block", "naked-eol")[kind] + ":" + rb.split(" ")[0])
             inp = {"with_comment": with_c, "without": without}
+            cols = cm.endswith("\n")     # what follows the comment starts on a fresh line: columns are kept too
             if rb.startswith("ok "):
                 if not ra.startswith("ok "):
                     s5.violate(inp, "scans like the text without the comment", ra[:200], "a comment changes the outcome of the scan")
@@ -298,7 +299,6 @@ def run(ctx):
                 ta, tb = parse_ok(ra), parse_ok(rb)
                 ca = [t for t in ta if t[0] == "COMMENT"]
                 cb = [t for t in tb if t[0] == "COMMENT"]
-                cols = cm.endswith("\n")     # what follows the comment starts on a fresh line: columns are kept too
                 ka = [(t[0], t[1], t[3] if cols else 0) for t in ta if t[0] != "COMMENT"]
                 kb = [(t[0], t[1], t[3] if cols else 0) for t in tb if t[0] != "COMMENT"]
                 if ka != kb or len(ca) != len(cb) + 1:
@@ -306,7 +306,7 @@ def run(ctx):
                                "the text of a comment is looked at: a comment between lines (or behind an instruction that stands alone) changes the other tokens, or is not exactly one COMMENT token")
             elif rb.startswith("err "):
                 wa, wb = ra.split(" "), rb.split(" ")
-                if wa[:2] != wb[:2] or (len(wa) > 3 and len(wb) > 3 and wa[3] != wb[3]):
+                if wa[:2] != wb[:2] or (cols and len(wa) > 3 and len(wb) > 3 and wa[3] != wb[3]):
                     s5.violate(inp, " ".join(wb[:4]), " ".join(wa[:4]), "a lexical error behind a comment is reported differently (message / column) than without the comment")
             elif ra.split(" ")[0] != rb.split(" ")[0]:
                 s5.violate(inp, rb[:80], ra[:80], "a comment changes the outcome of the scan")
